@@ -80,7 +80,10 @@ def v4(rep, F, tms):
             still = []
             for s, undec in unmatched_cur:
                 und = None
-                for i in missing:
+                rw, who = decide.rewritten(F, s["fn"])
+                if rw and missing:
+                    und = missing[0]
+                for i in (missing if und is None else []):
                     verdict, info = decide.definite_difference(s["f"], sp[i], vocab)
                     if verdict in ("undecided", "same"):
                         und = i
@@ -108,6 +111,15 @@ def v4(rep, F, tms):
                                 s["file"], s["ln"]))
             if len(missing) > len(unmatched_cur):
                 for i in missing[len(unmatched_cur):]:
+                    # the rule function of the reference entry, if it was restructured, may raise the code through
+                    # a shape the extractor does not follow (shared helper, table of cases): undecided
+                    rfn = (sc.get(code, [{}] * (i + 1))[i] or {}).get("fn")
+                    cand = [b_ for b_ in F.bodies if b_.get("name") == rfn and (b_.get("impl_self") or "").endswith("::" + tname)]
+                    if rfn and (not cand or any(decide.rewritten(F, b_["path"])[0] for b_ in cand)):
+                        r["undecided"] = r.get("undecided", 0) + 1
+                        rep.notes.append("V4: %s %s: the rule function %s was restructured or is gone; whether the "
+                                         "reference condition is still enforced is undecided" % (tname, code, rfn))
+                        continue
                     fn = cs[0]["fn"] if cs else tname
                     rep.add(Finding("V4", fn, "%s:%s:missing" % (tname, code),
                                     "%s no longer raises %s under the reference condition `%s`: the documented "
